@@ -136,6 +136,41 @@ def match_known(f, known):
     return None
 
 
+def run_canaries(prop):
+    """thorough tier: the kept seeded changes this check is recorded to catch (seeded/MATRIX.json) are applied to a
+    scratch copy of /repo (outside /repo and /verif, removed afterwards) and the rules are run on it; each must be
+    reported again.  A rule that stays silent on its own canary has lost its teeth: analysis broken, not a pass."""
+    import shutil, subprocess, tempfile
+    mpath = os.path.join(ROOT, "seeded", "MATRIX.json")
+    if not os.path.exists(mpath):
+        return []
+    matrix = json.load(open(mpath))
+    seeds = sorted(s for s, v in matrix.items() if isinstance(v, dict) and prop in v and v[prop].get("exit") == 1)
+    out = []
+    for sd in seeds:
+        patch = os.path.join(ROOT, "seeded", sd, "patch.diff")
+        if not os.path.exists(patch):
+            continue
+        tmp = tempfile.mkdtemp(prefix="pnc_canary.")
+        try:
+            r = subprocess.run(["rsync", "-a", "--exclude", ".git", "--exclude", "*.o", "--exclude", "*.lo", "--exclude", "*.a",
+                                "--exclude", ".libs", "--exclude", "*.nc", "/repo/", tmp + "/"], capture_output=True, text=True)
+            if r.returncode != 0:
+                out.append({"seed": sd, "fired": False, "note": "scratch copy failed: " + r.stderr[-200:]})
+                continue
+            r = subprocess.run(["patch", "-p1", "-s", "-d", tmp, "-i", patch], capture_output=True, text=True)
+            if r.returncode != 0:
+                # the seeded change no longer applies to the current tree (the code it touched was edited): not a verdict
+                out.append({"seed": sd, "fired": None, "note": "patch does not apply to the current tree"})
+                continue
+            st, lines, ev, broken, ctx = run_property(prop, "quick", 0, repo=tmp, quiet=True, write=False)
+            rules = sorted({u["rule"] for u in ev["coverage"]["unlisted_findings"]})
+            out.append({"seed": sd, "fired": bool(rules), "rules": rules, "exit": st})
+        finally:
+            shutil.rmtree(tmp, ignore_errors=True)
+    return out
+
+
 def run_property(prop, tier, seed, repo=None, quiet=False, write=True):
     t0 = time.time()
     mod = importlib.import_module("rules.%s" % prop.lower())
@@ -212,8 +247,17 @@ def run_property(prop, tier, seed, repo=None, quiet=False, write=True):
         "wall_s": round(wall, 3),
         "violations": len(unlisted),
     }
+    if tier == "thorough" and repo is None and broken is None:
+        can = run_canaries(prop)
+        ev["coverage"]["canaries"] = list(ctx.canaries) + can
+        dead = [c["seed"] for c in can if c.get("fired") is False]
+        if dead:
+            broken = "canary: the seeded change(s) %s recorded as caught by this check are no longer reported" % ", ".join(dead)
+            status = 2
+        ev["wall_s"] = round(time.time() - t0, 3)
     if broken:
         ev["coverage"]["analysis_broken"] = broken
+        ev["coverage"]["exhaustive"] = False
     if write:
         os.makedirs(os.path.join(ROOT, "evidence"), exist_ok=True)
         with open(os.path.join(ROOT, "evidence", "%s.json" % prop), "w") as fp:
